@@ -67,7 +67,8 @@ static void cmd_H(char** t) {
         size_t r = 0; int k = (strlen(p) >= 3 && p[2] == '2') ? 2 : 1; int isset = 1;
         if (!strcmp(p, "q")) {
             char b[64]; int idx = 0;
-            if (d->ddict) { size_t const sz = ZSTD_DDict_dictSize(d->ddict); idx = (sz == dn[1]) ? 1 : (sz == dn[2]) ? 2 : 9; }
+            if (d->ddict) { size_t const sz = ZSTD_DDict_dictSize(d->ddict); const void* const ct = ZSTD_DDict_dictContent(d->ddict);   /* by content: the two dictionaries may have the same size */
+                idx = (sz == dn[1] && !memcmp(ct, dict[1], sz)) ? 1 : (sz == dn[2] && !memcmp(ct, dict[2], sz)) ? 2 : 9; }
             sprintf(b, "q=%d,%d;", idx, (int)d->dictUses); radd(b); continue;
         }
         if (!strcmp(p, "ld1") || !strcmp(p, "ld2")) r = ZSTD_DCtx_loadDictionary(d, dict[k], dn[k]);
